@@ -358,4 +358,5 @@ func checkC14(c *Ctx) {
 		}
 	}
 	checkC14UniqueAccept(c)
+	checkRound4Misc(c, "C14")
 }
